@@ -271,6 +271,9 @@ def cli_case(rng, focus=None):
             kv["dist"] = hx(dist(rng, valid or rng.random() < 0.6))
         if rng.random() < 0.3:
             kv["bodyms"] = rng.choice([5, 30])
+        if (valid and kv.get("dist") in (hx("none"), hx("regular")) and "rate" in kv and "maxit" not in kv and not setupfail
+                and "bodyms" not in kv and kv.get("conc", 100) >= 5 and "twice" not in kv):
+            kv["exact"] = 1
         if valid and kv.get("dist") == hx("none") and "rate" in kv:
             kv["meaning"] = 1
         elif valid and "rate" in kv and "dist" in kv:
@@ -410,6 +413,21 @@ def cli_verdict_case(rng):
     return "cli " + " ".join("%s=%s" % (a, b) for a, b in kv.items())
 
 
+CLI_CORPUS_KEYS = {
+    "C04": ("expectfull",),
+    "C05": ("leakcheck", "retmax", "sigint"),
+    "C08": ("maxfail", "igndrop", "failevery", "tdfail", "setupfail", "sigint", "bodyms=30"),
+    "C09": ("exact=1", "timing=1"),
+    "C12": ("exact=1", "meaningmax"),
+    "C15": ("mode=file",),
+}
+
+
+def cli_corpus_for(pid):
+    keys = CLI_CORPUS_KEYS[pid]
+    return [c for c in cli_corpus() if any(k in c for k in keys)]
+
+
 def cli_corpus():
     c = lambda **kv: "cli " + " ".join("%s=%s" % (k.rstrip("_"), v) for k, v in kv.items())
     d200, none = hx("200ms"), hx("none")
@@ -469,6 +487,14 @@ def cli_corpus():
         c(mode="file", fdur=800, conc=2, bodyms=5, fstages="c:150:3/50ms;u:150:2", fstart=200),
         c(mode="file", fdur=250, conc=2, bodyms=5, fstages="c:150:3/50ms;c:300:3/50ms;u:150:2", fshared=1),           # shared parameter, run ends inside stage 2
         c(mode="file", fdur=800, conc=2, bodyms=1, maxit=4, fstages="u:150:2;c:300:3/50ms", fshared=1),
+        c(mode="constant", dur=hx("650ms"), conc=20, rate=hx("7/s"), dist=hx("regular"), exact=1, timing=1),       # the k-th tick requests the k-th value of the profile
+        c(mode="constant", dur=hx("350ms"), conc=20, rate=hx("7/s"), dist=hx("regular"), exact=1),
+        c(mode="constant", dur=hx("450ms"), conc=30, rate=hx("13/500ms"), dist=hx("regular"), exact=1),
+        c(mode="constant", dur=hx("450ms"), conc=30, rate=hx("4/100ms"), dist=none, exact=1, leakcheck=1),
+        c(mode="users", dur=d200, conc=3, bodyms=5, leakcheck=1),                                                   # nothing of the command remains after it returned
+        c(mode="constant", dur=d200, conc=3, rate=hx("3/50ms"), dist=none, leakcheck=1, failevery=2),
+        c(mode="users", dur=hx("900ms"), conc=10500, bodyms=400, expectfull=1),                                      # every one of 10 500 users runs
+        c(mode="file", fdur=6000, conc=2, maxit=3, bodyms=5, fstages="c:3000:5/100ms", retmax=1500),                 # the limit ends a config-file run at once
         c(mode="constant", dur=d200, conc=2, raw=hx("--nope")),
         c(mode="constant", dur=d200, conc=2, raw=hx("extra-positional")),
     ]
